@@ -7,18 +7,22 @@ H = "LLBuild.Handshake."
 
 class Check(EngineCheck):
     prop = "C06"
-    module = "LLBuild.Props.C06"
+    module = "LLBuild.Props.C06All"
     theorems = [E + "C06_start", E + "C06_prior", E + "C06_provide", E + "C06_inputs_available",
                 E + "C06_inputs_complete_and_clean", E + "C06_schedule_independent_value",
                 E + "C06_schedule_independent_value_eq", E + "C06_dsl_deterministic", E + "Clean_unique", E + "engine_fingerprint_matches_model",
                 H + "C06_handshake_shape_matches_code", H + "C06_no_lost_wakeup", H + "C06_mutual_exclusion",
-                H + "C06_handoff_counts", H + "C06_no_deadlock", H + "C06_lost_wakeup_without_recheck"]
+                H + "C06_handoff_counts", H + "C06_no_deadlock", H + "C06_lost_wakeup_without_recheck",
+                # refinement: every trace of the concrete engine model (all programs, schedules, cancellation points) is accepted
+                "LLBuild.Refine.refinement_final", "LLBuild.Refine.refinement_build", "LLBuild.Refine.opOk_iff_noBad",
+                "LLBuild.Refine.EngineImpl_sound_C01", "LLBuild.Refine.EngineImpl_sound_C02_once"]
     mix = [(0.5, {}), (0.5, {"threads": True})]
     budget = (300, 3000)
     cross_schedule = True
     assumptions = EngineCheck.assumptions + [
         "lost wake-ups, deadlock and exactly-once hand-off are proved at LOCK GRANULARITY on a model of the two critical sections (Model/Handshake.lean) whose shape parameters are read from the source by the fingerprint extractor; data races below lock granularity (C++ memory model) are not expressible; the free-threaded harness runs exercise the real code",
-        "equality of the executed set across schedules is decided by the python oracle (same history, two schedules), not by a theorem"]
+        "equality of the executed set across schedules is decided by the python oracle (same history, two schedules), not by a theorem",
+        "refinement_final: hypotheses RulesOk (request kinds <= 2, ids <= kMaximumInputID, ids distinct within a rule) and histOk (no build emits the concrete model's FUEL/BAD markers, i.e. its loop fuel suffices; the memory-safety BADs are proved unreachable); the concrete model does not cover injected database write failures, forked crashes, free-running completion threads, or a delegate that resolves cycles"]
 
 
 CHECK = Check()
